@@ -51,10 +51,11 @@ var stuckSeen int32
 // Scripted ACL.
 
 type aclTable struct {
-	allow   map[string]map[string]bool // user -> target -> allowed
-	fail    map[string]bool            // users for which NewRPCACL fails
-	failAll bool
-	star    bool // answer to Check("*") (never asked by a correct server)
+	allow     map[string]map[string]bool // user -> target -> allowed
+	fail      map[string]bool            // users for which NewRPCACL fails
+	failAll   bool
+	star      bool // answer to Check("*") (never asked by a correct server)
+	newCalls2 int64
 
 	newCalls, newFails, checks, starChecks int64
 }
@@ -71,8 +72,22 @@ func (a *aclTable) NewRPCACL(ctx context.Context) (subscribe.RPCACL, error) {
 		atomic.AddInt64(&a.newFails, 1)
 		return nil, errors.New("no credentials for " + u)
 	}
+	// Two legal shapes of the per-RPC object: a pointer, and (every third call) a
+	// struct VALUE that holds a map — an implementation of the interface that is
+	// not comparable, so it must never end up inside a map key or an == test.
+	if atomic.AddInt64(&a.newCalls2, 1)%3 == 0 {
+		return rpcACLValue{t: a, user: u, groups: map[string]bool{u: true}}, nil
+	}
 	return &rpcACL{t: a, user: u}, nil
 }
+
+type rpcACLValue struct {
+	t      *aclTable
+	user   string
+	groups map[string]bool
+}
+
+func (r rpcACLValue) Check(target string) bool { return (&rpcACL{t: r.t, user: r.user}).Check(target) }
 
 // Check implements subscribe.ACL.
 func (a *aclTable) Check(user, target string) bool { return a.allowed(user, target) }
